@@ -219,12 +219,10 @@ impl<'source, Token: Logos<'source>> Lexer<'source, Token> {
     /// Panics if adding `n` to current offset would place the `Lexer` beyond the last byte,
     /// or in the middle of an UTF-8 code point (does not apply when lexing raw `&[u8]`).
     pub fn bump(&mut self, n: usize) {
-        self.token_end += n;
-
-        assert!(
-            self.source.is_boundary(self.token_end),
-            "Invalid Lexer bump",
-        )
+        match self.token_end.checked_add(n) {
+            Some(token_end) if self.source.is_boundary(token_end) => self.token_end = token_end,
+            _ => panic!("Invalid Lexer bump"),
+        }
     }
 }
 
